@@ -5,17 +5,20 @@ from oracle_util import *  # noqa
 from protocol import from_real
 
 ID = "C08"
-LEAN_MODULE = None
+LEAN_MODULE = "SCoda.Props.C08"
 CLAUSES = [
-    ("at most one piece more than capacities", None),
-    ("every piece except the last lasts exactly its capacity", None),
-    ("piece durations sum to the original duration", None),
-    ("no piece ends with a note still sounding", None),
-    ("pieces laid end to end reproduce the sounding set exactly", None),
-    ("cut notes are re-struck with the same velocity", None),
-    ("every non-note event at its original tick", None),
-    ("the source sequence is not changed", None),
+    ("at most one piece more than capacities; no piece is empty; the loop always terminates", ["SCoda.C08.count", "SCoda.C08.nonempty", "SCoda.C08.split_total"]),
+    ("every piece except the last lasts exactly its capacity", ["SCoda.C08.exact"]),
+    ("piece durations sum to the original duration", ["SCoda.C08.sum"]),
+    ("no piece ends with a note still sounding: every piece is well-formed (partial: no zero-length note — known finding D18; the full statement is refuted by a kernel-checked counter-example)",
+     ["SCoda.C08.closed_partial", "SCoda.C08.closed_statement_false"]),
+    ("pieces laid end to end reproduce the sounding set exactly (same partial hypothesis)", ["SCoda.C08.sound_partial", "SCoda.C08.sound_statement_false"]),
+    ("cut notes are re-struck with the same velocity", ["SCoda.C08.velocity"]),
+    ("every non-note event at its original tick (partial: outside the final-boundary class — known finding D8; in general a sublist)",
+     ["SCoda.C08.others_partial", "SCoda.C08.others_sublist", "SCoda.C08.split_drops_final_boundary_event"]),
+    ("the source sequence is not changed: immediate in the functional model; aliasing is C16 (identity harness)", ["SCoda.C08.split_total"]),
 ]
+LEVEL = "proof"
 RULE = ("well-formed multi-channel sequences (<=6 notes, 2-3 channels, notes spanning several boundaries, events exactly on "
         "boundaries and on the final tick, leading/trailing rests) x capacity lists of 0..4 values incl. 1; "
         "non-trivial = some note crosses a boundary or an event sits on a boundary")
@@ -30,6 +33,16 @@ def final_boundary_event(rel, caps):
         cum += c
         bounds.add(cum)
     return dur in bounds and any(t == dur and m[TY] != OFF for t, m in timed)
+
+
+def zero_length_on_boundary(rel, caps):
+    """D18: a note whose note-on and note-off share a tick that is a cumulative capacity"""
+    timed, _ = rel_timed(rel)
+    cum, bounds = 0, set()
+    for c in caps:
+        cum += c
+        bounds.add(cum)
+    return any(on == off and on in bounds for (c, p, on, off, v) in notes_of(timed))
 
 
 def o_split(inp):
@@ -90,14 +103,22 @@ def setup(ctx):
             [tuple(m) for m in f["input"]["rel"]], f["input"]["caps"]) and f["clause"] == "others"
     ctx.kf_predicates["D8"] = kf_d8
 
+    def kf_d18(f):
+        return f["clause"] in ("closed", "sound") and zero_length_on_boundary([tuple(m) for m in f["input"]["rel"]], f["input"]["caps"])
+    ctx.kf_predicates["D18"] = kf_d18
+
 
 D8_EXAMPLE = {"rel": [G.pm(ON, 0, None, note=60, vel=64), G.pm(WAIT, 0, 24), G.pm(OFF, 0, None, note=60),
                       G.pm(TIMESIG, 0, None, num=3, den=4)], "caps": [24]}
 
 
+D18_EXAMPLE = {"rel": [G.pm(WAIT, 0, 24), G.pm(ON, 0, None, note=60, vel=64), G.pm(OFF, 0, None, note=60), G.pm(WAIT, 0, 1)], "caps": [24]}
+
+
 def generate(ctx):
     rng = ctx.rng
     ctx.check("split", D8_EXAMPLE)      # the recorded instance of the known finding
+    ctx.check("split", D18_EXAMPLE)
     for i in range(ctx.n(400, 15000)):
         grid = rng.choice([1, 6, 12])
         rel, notes = G.gen_wf_rel(rng, channels=rng.choice([(0,), (0, 1), (0, 1, 2)]), grid=grid, max_tick=120,
